@@ -161,17 +161,32 @@ structure Directives where
 
 def strBytes (s : String) : Bytes := s.toUTF8.toList
 
+/-! the six flag names of `decode_flags` as byte lists (`String.toUTF8` does not reduce in the kernel, so the names are
+spelled out; the driver also evaluates `flagNamesOk` below, and every name goes through the real `decode_flags` on every
+run of the check) -/
+def nmGlobNoPath : Bytes := [103, 108, 111, 98, 95, 110, 111, 95, 112, 97, 116, 104]                         -- "glob_no_path"
+def nmGlob : Bytes := [103, 108, 111, 98]                                                                   -- "glob"
+def nmDontFragment : Bytes := [100, 111, 110, 116, 95, 102, 114, 97, 103, 109, 101, 110, 116]               -- "dont_fragment"
+def nmDontCompress : Bytes := [100, 111, 110, 116, 95, 99, 111, 109, 112, 114, 101, 115, 115]               -- "dont_compress"
+def nmDontDeduplicate : Bytes := [100, 111, 110, 116, 95, 100, 101, 100, 117, 112, 108, 105, 99, 97, 116, 101]  -- "dont_deduplicate"
+def nmNosparse : Bytes := [110, 111, 115, 112, 97, 114, 115, 101]                                           -- "nosparse"
+
+/-- the spelled-out names are the strings of the source (evaluated natively by the driver op `flagnames`) -/
+def flagNamesOk : Bool :=
+  nmGlobNoPath == strBytes "glob_no_path" && nmGlob == strBytes "glob" && nmDontFragment == strBytes "dont_fragment" &&
+  nmDontCompress == strBytes "dont_compress" && nmDontDeduplicate == strBytes "dont_deduplicate" && nmNosparse == strBytes "nosparse"
+
 /-- the `for (i = 0; i < sep->count; ++i)` loop: exact flag names of the source -/
 def applyFlagNames : Directives → List Bytes → Except Err Directives
   | d, [] => .ok d
   | d, a :: as =>
     let a := trim a
-    if a = strBytes "glob_no_path" then applyFlagNames { d with doGlob := true, pathGlob := false } as
-    else if a = strBytes "glob" then applyFlagNames { d with doGlob := true, pathGlob := true } as
-    else if a = strBytes "dont_fragment" then applyFlagNames { d with flags := d.flags ||| Consts.blkDontFragment } as
-    else if a = strBytes "dont_compress" then applyFlagNames { d with flags := d.flags ||| Consts.blkDontCompress } as
-    else if a = strBytes "dont_deduplicate" then applyFlagNames { d with flags := d.flags ||| Consts.blkDontDeduplicate } as
-    else if a = strBytes "nosparse" then applyFlagNames { d with flags := d.flags ||| Consts.blkIgnoreSparse } as
+    if a = nmGlobNoPath then applyFlagNames { d with doGlob := true, pathGlob := false } as
+    else if a = nmGlob then applyFlagNames { d with doGlob := true, pathGlob := true } as
+    else if a = nmDontFragment then applyFlagNames { d with flags := d.flags ||| Consts.blkDontFragment } as
+    else if a = nmDontCompress then applyFlagNames { d with flags := d.flags ||| Consts.blkDontCompress } as
+    else if a = nmDontDeduplicate then applyFlagNames { d with flags := d.flags ||| Consts.blkDontDeduplicate } as
+    else if a = nmNosparse then applyFlagNames { d with flags := d.flags ||| Consts.blkIgnoreSparse } as
     else .error .unknownflag
 
 /-- `decode_flags`: directives and the line with the flag list and following blanks removed.
